@@ -118,3 +118,12 @@ CHECKS["C07"] = (
     "DESIGN.md#c07",
 )
 NA.pop("C07", None)
+
+CHECKS["C08"] = (
+    "other",
+    "static analysis: interprocedural write-effect summaries rooted at the exported object for every exporter entry point; constant-table extraction and comparison of exporter/loader registries and PLY / glTF / DXF type tables; def-use check of index agreement between cooperating glTF writer sites",
+    "Decides 'exporting never modifies the geometry of the object being exported' for every format and option (no write effect rooted at the exported object reaches any exporter), and table-level necessary conditions of round-tripping: every exported type has a loader, writer/reader type tables are mutual inverses and match the glTF componentType codes, STL reader and writer share explicit little-endian record dtypes, glTF node->mesh indices are positions in the emitted list. Element-wise equality of reloaded data is not decided.",
+    "Trusted: E1 effect model (writes through paths cut at the analysis bound are counted in evidence, not judged); exemptions: ColorVisuals cache->data normalisation, lazily derived camera intrinsics, entity traversal direction flags.",
+    "DESIGN.md#c08",
+)
+NA.pop("C08", None)
